@@ -62,13 +62,23 @@ impl Tracee {
     /// Wait for change of tracee status.
     pub fn wait_one(&self) -> Result<WaitStatus, Error> {
         debug!(target: "tracer", "wait for tracee status, thread {pid}", pid = self.pid);
+        #[cfg(feature = "verif")]
+        crate::debugger::verif::delay(3);
         let status = waitpid(self.pid, None).map_err(Waitpid)?;
+        #[cfg(feature = "verif")]
+        crate::debugger::verif::rec_wait(self.pid, &status);
         debug!(target: "tracer", "receive tracee status, thread {pid}, status: {status:?}", pid = self.pid);
         Ok(status)
     }
 
     /// Move the stopped tracee process forward by a single instruction step.
     pub fn step(&self, sig: Option<Signal>) -> Result<(), Error> {
+        #[cfg(feature = "verif")]
+        crate::debugger::verif::rec_req(
+            crate::debugger::verif::ReqKind::Step,
+            self.pid,
+            sig.map(|s| s as u64).unwrap_or(0),
+        );
         sys::ptrace::step(self.pid, sig).map_err(Ptrace)
     }
 
@@ -89,6 +99,12 @@ impl Tracee {
             pid = self.pid,
         );
 
+        #[cfg(feature = "verif")]
+        crate::debugger::verif::rec_req(
+            crate::debugger::verif::ReqKind::Cont,
+            self.pid,
+            sig.map(|s| s as u64).unwrap_or(0),
+        );
         sys::ptrace::cont(self.pid, sig)
             .inspect(|_| {
                 self.update_status(Running);
@@ -118,6 +134,8 @@ impl Tracee {
     pub fn set_pc(&self, value: u64) -> Result<(), Error> {
         let mut map = RegisterMap::current(self.pid)?;
         map.update(Register::Rip, value);
+        #[cfg(feature = "verif")]
+        crate::debugger::verif::rec_req(crate::debugger::verif::ReqKind::SetPc, self.pid, value);
         map.persist(self.pid)
     }
 
@@ -147,6 +165,8 @@ impl Tracee {
             return Ok(());
         }
 
+        #[cfg(feature = "verif")]
+        crate::debugger::verif::rec_req(crate::debugger::verif::ReqKind::Cont, self.pid, 0);
         sys::ptrace::cont(self.pid, None).map_err(Ptrace)?;
         if let WaitStatus::Stopped(_, Signal::SIGTRAP) = self.wait_one()? {
             let info = sys::ptrace::getsiginfo(self.pid).map_err(Ptrace)?;
@@ -248,6 +268,8 @@ impl TraceeCtl {
                 // if no such process - continue, it will be removed later, on PTRACE_EVENT_EXIT event.
                 if matches!(e, Ptrace(err) if err == Errno::ESRCH) {
                     //warn!("thread {} not found, ESRCH", tracee.pid);
+                    #[cfg(feature = "verif")]
+                    crate::debugger::verif::rec_fail();
                     return;
                 }
 
@@ -294,6 +316,8 @@ impl TraceeCtl {
                 // if no such process - continue, it will be removed later, on PTRACE_EVENT_EXIT event.
                 if matches!(e, Ptrace(err) if err == Errno::ESRCH) {
                     warn!("thread {} not found, ESRCH", tracee.pid);
+                    #[cfg(feature = "verif")]
+                    crate::debugger::verif::rec_fail();
                     return;
                 }
 
